@@ -31,7 +31,7 @@ def one(args):
 
 
 def main():
-    dirs = sys.argv[1:] or sorted(glob.glob("/tmp/benign_out/C*/[0-9]"))
+    dirs = sys.argv[1:] or sorted(glob.glob("/verif/benign/C*"))
     dirs = [d for d in dirs if os.path.exists(f"{d}/patch.diff")]
     jobs = [(d, p) for d in dirs for p in PROPS]
     bad = 0
